@@ -1,12 +1,11 @@
-from ..engine import Case
-from . import c10
+from . import _agg
 
 
 def cases(tier):
-    out = []
-    out += c10.vec_cases(tier, prefix='c12', checks='safety', ops=['ADD', 'SET', 'GET', 'POP', 'TOARRAY', 'WALK'], sizes=[1, 3], maxes=[1, 2], safety_owner='C11', timeout=600)
-    return out
+    return _agg.cases(tier, 'copy')
 
 
 def meta(tier):
-    return {'level': 'model_checking', 'bounds': 'wip', 'explanation': 'wip'}
+    return _agg.meta(tier, 'copy',
+                     'Per insertion entry point: the caller\'s key/value live in exactly sized heap objects that are overwritten and freed right after the call; the container contents snapshot taken before the scribble must be unchanged. '
+                     'Per copying accessor: result is a different object than any internal one (__CPROVER_same_object), equals the stored bytes with exact length, and stays intact after the container is released (pointer checks on).')
